@@ -183,4 +183,13 @@ IdxSeqs(n) == IF n = 1 THEN { <<a>> : a \in 1..NU }
               ELSE UNION { { Append(s, b) : b \in s[n-1]..NU } : s \in IdxSeqs(n - 1) }
 IdxSum(f)  == FoldSeq(LAMBDA x, acc : acc + x, 0, f)
 
+(* The same multisets, enumerated lazily by nested quantifiers: TLC materialises and sorts the set IdxSeqs(3) before it   *)
+(* yields the first element (minutes for a 190-element universe, all in the single-threaded initial-state phase), while   *)
+(* nested \E are streamed.  P is the rest of the initial predicate for the chosen index sequence.  Up to 4 streams.       *)
+ForEachMultiset(m, P(_)) ==
+  \/ \E a \in 1..NU : P(<<a>>)
+  \/ m >= 2 /\ \E a \in 1..NU : \E b \in a..NU : P(<<a, b>>)
+  \/ m >= 3 /\ \E a \in 1..NU : \E b \in a..NU : \E c \in b..NU : P(<<a, b, c>>)
+  \/ m >= 4 /\ \E a \in 1..NU : \E b \in a..NU : \E c \in b..NU : \E d \in c..NU : P(<<a, b, c, d>>)
+
 =============================================================================
